@@ -148,6 +148,16 @@ type StateJ struct {
 // canon sorts everything that is a map or a set on the Go side (and has no order in the model either) and
 // turns nil slices into empty ones.
 func (s *StateJ) canon() {
+	if !specObservable {
+		s.Clusters = nil
+	}
+	if !reqIDObservable {
+		for i := range s.Fcs {
+			for j := range s.Fcs[i].States {
+				s.Fcs[i].States[j].ReqID = 0
+			}
+		}
+	}
 	if s.Hb == nil {
 		s.Hb = []HbEntry{}
 	}
